@@ -148,9 +148,9 @@ def f17_raw(ctx, L):
         raise AnalysisError('anchor vanished: prophy::cast')
     L.check(nows(c[0].body.text) == '{returndetail::align_ptr(static_cast<To>(static_cast<void*>(from)));}', 'C09.cast-aligns',
             'cast', c[0].site(), 'cast<To>(p) must align p to the alignment of *To (align_ptr of the converted pointer)', c[0].body.text)
-    a = cx.functions('align_ptr')
+    a = [g for g in cx.functions('align_ptr') if len(g.params) == 1]
     if len(a) != 1:
-        raise AnalysisError('anchor vanished: align_ptr')
+        raise AnalysisError('anchor vanished: align_ptr(Tp*)')
     L.check(nows(a[0].body.text) == '{enum{mask=alignment<Tp>::value-1};returnreinterpret_cast<Tp*>((reinterpret_cast<uintptr_t>(ptr)+mask)&~uintptr_t(mask));}',
             'F16.align-idiom', 'align_ptr', a[0].site(), 'align_ptr must round the address up to alignof(Tp) (mask = A - 1; (p + mask) & ~mask)', a[0].body.text)
 
